@@ -7,7 +7,7 @@ World: SW, refinement via worlds.swref; the reference action applier
 arithmetic and RFC 1071 sum.
 """
 
-from simkit.rng import Rng
+from simkit.rng import Rng, mix
 from worlds import swref
 from checks import swgen as G
 from models import of10wire as W
@@ -55,6 +55,14 @@ def gen_plan(seed, tier):
     if fs["kind"] in ("snap", "llc"):
       fs = G.gen_frame(r, rich=False)
     frames.append((fs, r.randint(1, nports)))
+  r6 = Rng(mix(seed, "pad"))
+  for fs, _ in frames:
+    # Ethernet padding after the IP datagram (a short frame as a NIC
+    # delivers it): what the switch forwards is the datagram's frame, the
+    # trailer is not payload
+    if fs["kind"] in ("udp", "tcp", "icmp") and not fs.get("frag") \
+        and not fs.get("vlan2") and r6.chance(0.2):
+      fs["pad"] = r6.pick([2, 6, 18])
   steps = []
   n = r.randint(6, 40 if tier == "thorough" else 24)
   frag_run = r.chance(0.2)
